@@ -359,6 +359,20 @@ func Leaves(v ssa.Value, opts SliceOpts) []ssa.Value {
 					}
 				}
 			}
+			// a struct built field by field (composite literal) and then read as a whole
+			if pt, ok := x.Type().Underlying().(*types.Pointer); ok && x.Referrers() != nil {
+				if _, isStruct := pt.Elem().Underlying().(*types.Struct); isStruct {
+					for _, rr := range *x.Referrers() {
+						if fa, ok := rr.(*ssa.FieldAddr); ok && fa.Referrers() != nil {
+							for _, r3 := range *fa.Referrers() {
+								if st, ok := r3.(*ssa.Store); ok && st.Addr == ssa.Value(fa) {
+									stores = append(stores, st.Val)
+								}
+							}
+						}
+					}
+				}
+			}
 			if len(stores) == 0 {
 				addLeaf(v)
 				return
@@ -447,6 +461,12 @@ func storesTo(addr ssa.Value) []ssa.Value {
 					}
 				}
 			}
+			// the whole object assigned at once (x = y, x = v.(T)): the field comes with it
+			if _, isAlloc := base.(*ssa.Alloc); isAlloc {
+				if st, ok := r.(*ssa.Store); ok && st.Addr == base {
+					out = append(out, st.Val)
+				}
+			}
 		}
 	}
 	return out
@@ -503,4 +523,69 @@ func ForwardUses(v ssa.Value, fn func(user ssa.Instruction, via ssa.Value)) {
 		}
 	}
 	visit(v)
+}
+
+// FieldSourcesAt: the values field #field of the local struct cell a may hold
+// just before instruction at — flow-sensitively: a later assignment of the
+// field, or of the whole struct, kills an earlier one. A whole-struct
+// assignment from another local struct cell is followed into that cell; any
+// other whole-struct value is returned as it is (the field travels with it).
+func FieldSourcesAt(a *ssa.Alloc, field int, at ssa.Instruction, depth int) []ssa.Value {
+	if depth > 6 || a.Referrers() == nil {
+		return []ssa.Value{a}
+	}
+	type def struct {
+		st    *ssa.Store
+		whole bool
+	}
+	var defs []def
+	for _, r := range *a.Referrers() {
+		switch x := r.(type) {
+		case *ssa.Store:
+			if x.Addr == ssa.Value(a) {
+				defs = append(defs, def{x, true})
+			}
+		case *ssa.FieldAddr:
+			if x.Field != field || x.Referrers() == nil {
+				continue
+			}
+			for _, rr := range *x.Referrers() {
+				if st, ok := rr.(*ssa.Store); ok && st.Addr == ssa.Value(x) {
+					defs = append(defs, def{st, false})
+				}
+			}
+		}
+	}
+	isDef := map[ssa.Instruction]bool{}
+	for _, d := range defs {
+		isDef[d.st] = true
+	}
+	var out []ssa.Value
+	for _, d := range defs {
+		hit := false
+		w := &Walk{
+			Stop:  func(in ssa.Instruction) bool { return isDef[in] && in != ssa.Instruction(d.st) },
+			Visit: func(in ssa.Instruction) { hit = hit || in == at },
+		}
+		w.FromInstr(d.st)
+		if !hit {
+			continue
+		}
+		if !d.whole {
+			out = append(out, d.st.Val)
+			continue
+		}
+		// whole-struct assignment
+		if ld, ok := d.st.Val.(*ssa.UnOp); ok && ld.Op == token.MUL {
+			if a2, ok := ld.X.(*ssa.Alloc); ok {
+				out = append(out, FieldSourcesAt(a2, field, ld, depth+1)...)
+				continue
+			}
+		}
+		out = append(out, d.st.Val)
+	}
+	if len(out) == 0 {
+		return []ssa.Value{a}
+	}
+	return out
 }
